@@ -119,10 +119,29 @@ class TseitinTransformation:
     def goal2intcnf(self, goal: z3.Goal) -> list[list[int]]:
         cnf = []
         for expr in goal:
-            if z3.is_or(expr):
-                cnf.append([self.expr_to_signed_id(x) for x in expr.children()])
-            else:
-                cnf.append([self.expr_to_signed_id(expr)])
+            literals = expr.children() if z3.is_or(expr) else [expr]
+            clause = []
+            satisfied = False
+            for literal in literals:
+                # the tactic may leave the constants True/False (possibly negated) in the goal;
+                # they must not be mapped to fresh propositional variables
+                negated = z3.is_not(literal)
+                atom = literal.children()[0] if negated else literal
+                if z3.is_true(atom) or z3.is_false(atom):
+                    if z3.is_true(atom) != negated:
+                        satisfied = True
+                        break
+                    continue
+                clause.append(self.expr_to_signed_id(literal))
+            if satisfied:
+                continue
+            if not clause:
+                # unsatisfiable clause, encoded without an empty clause (x and not x)
+                pool = cast(IDPool, self.epistemic_state["pool"])  # type: ignore[assignment]
+                false_id = pool.id("__false__")
+                cnf.extend([[false_id], [-false_id]])
+                continue
+            cnf.append(clause)
         return cnf
 
     """
